@@ -74,6 +74,14 @@ int main(int argc, char** argv) {
 			std::cout << "W ret=";
 			for (long j = 0; j != a[1]; ++j) { if (j) std::cout << ","; std::cout << (long long)line[j]; }
 			std::cout << std::endl;
+		} else if (cmd == "V") { // V k a b : BlockMatrix2x2::row(k,a,b,storage), sub-range, with guard cells around the buffer
+			std::size_t k = a[0], st = a[1], en = a[2];
+			std::vector<double> buf(en - st + 16, -777.0);
+			w->bm->row(k, st, en, buf.data() + 8);
+			std::cout << "V ret=";
+			for (std::size_t j = 0; j != en - st; ++j) { if (j) std::cout << ","; std::cout << (long long)buf[8 + j]; }
+			for (std::size_t j = 0; j != 8; ++j) if (buf[j] != -777.0 || buf[8 + en - st + j] != -777.0) { std::cout << " !OOB"; break; }
+			std::cout << std::endl;
 		} else if (cmd == "G") { w->bm->flipColumnsAndRows(a[0], a[1]); std::cout << "G "; w->dump(std::cout); std::cout << std::endl; }
 		else std::cout << "?" << std::endl;
 	}
